@@ -11,6 +11,10 @@ namespace Driver
 
 inductive Obj where
   | tensor (id : Option Nat)
+  /-- a caller's own `tensor.Tensor` implementation: a struct embedding library tensor `id` (command `wrap`).
+      As a method RECEIVER it is tensor `id` (Go promotes the embedded methods); as an ARGUMENT the library's device /
+      implementation check rejects it with an error, like nil. -/
+  | foreign (id : Nat)
   | ints (v : List Int)
   | ranges (v : List IRange)
   | tensors (v : List (Option Nat))
@@ -92,13 +96,26 @@ def St.tensorArg (s : St) (tok : String) : Option (Option Nat) :=
   if tok == "nil" then some none else
   match s.get? tok with
   | some (.tensor id) => some id
+  | some (.foreign _) => some none      -- rejected like nil by `assertCPUTensor` / `validateTensorDevice`
   | _ => none
 
 /-- a receiver: bound, non-nil tensor -/
 def St.recv (s : St) (tok : String) : Option Nat :=
   match s.get? tok with
   | some (.tensor (some id)) => some id
+  | some (.foreign id) => some id
   | _ => none
+
+/-- operand of a component entry point: (tensor or nil, is it a foreign implementation?) -/
+def St.compArg (s : St) (tok : String) : Option (Option Nat × Bool) :=
+  if tok == "nil" then some (none, false) else
+  match s.get? tok with
+  | some (.tensor id) => some (id, false)
+  | some (.foreign id) => some (some id, true)
+  | _ => none
+
+def St.isForeign (s : St) (tok : String) : Bool :=
+  match s.get? tok with | some (.foreign _) => true | _ => false
 
 def St.intsArg (s : St) (tok : String) : Option (List Int) :=
   if tok.startsWith "$" then
@@ -379,7 +396,10 @@ def exec (s : St) (dst : Option String) (cmd : String) (args : List String) : St
           | _ => (s, .panic))
       | none, _ => failBind s dst .skip
       | _, none => (s, .bad)
-  | "obs", [t] => match s.tensorArg t with
+  | "wrap", [t] => match s.get? t, dst with
+      | some (.tensor (some x)), some d => (s.bind d (.foreign x), .ok "")
+      | _, _ => failBind s dst .skip
+  | "obs", [t] => match (if s.isForeign t then (s.recv t).map some else s.tensorArg t) with
       | some (some x) => (s, .ok (obsNode H x))
       | some none => if t == "nil" then (s, .skip) else (s, .ok "nil")
       | none => (s, .skip)
@@ -445,7 +465,7 @@ def exec (s : St) (dst : Option String) (cmd : String) (args : List String) : St
        | _, _ => (s, .bad))
   | "input", [] => match dst with
       | some d => (s.bind d (.input none), .ok "") | none => (s, .bad)
-  | "input", [sd] => match dst, s.tensorArg ((sd.drop 5).toString) with
+  | "input", [sd] => match dst, (if s.isForeign ((sd.drop 5).toString) then none else s.tensorArg ((sd.drop 5).toString)) with
       | some d, some t => if sd.startsWith "seed=" then (s.bind d (.input (some t)), .ok "") else (s, .bad)
       | some d, none => failBind s (some d) .skip
       | _, _ => (s, .bad)
@@ -464,11 +484,15 @@ def exec (s : St) (dst : Option String) (cmd : String) (args : List String) : St
               | .ok act => (s.bind d (.act act), .ok "") | .err => failBind s dst .err | .panic => failBind s dst .panic)
            | none => (s, .bad))
       | none => (s, .bad)
-  | "fwd", l :: xs => match s.get? l, xs.mapM s.tensorArg with
-      | some (.act a), some ts => runBind s dst (actForward a ts)
-      | some (.fc idx), some ts => (match s.fcs[idx]? with
+  | "fwd", l :: xs => match s.get? l, (xs.mapM s.compArg).map (fun l => (l.map (·.1), l.any (·.2))) with
+      | some (.act a), some (ts, frn) =>
+          -- Relu / LeakyRelu use their input as the ARGUMENT of ElMax / ElMin: a foreign implementation is rejected there
+          (match a, frn with
+           | .relu, true | .leaky _, true => failBind s dst .err
+           | _, _ => runBind s dst (actForward a ts))
+      | some (.fc idx), some (ts, _) => (match s.fcs[idx]? with
           | some c => runBind s dst (fcForward c ts) | none => failBind s dst .skip)
-      | some (.input seed), some ts =>
+      | some (.input seed), some (ts, _) =>
           if !ts.isEmpty then failBind s dst .err else
           (match seed, dst with
            | none, _ => failBind s dst .err
@@ -483,7 +507,7 @@ def exec (s : St) (dst : Option String) (cmd : String) (args : List String) : St
       | some (.ptr idx j), some d => (match s.fcs[idx]? with
           | some c => (s.bind d (.tensor (if j == 0 then c.w else c.b)), .ok "") | none => failBind s dst .skip)
       | _, _ => failBind s dst .skip
-  | "setptr", [p, t] => match s.get? p, s.tensorArg t with
+  | "setptr", [p, t] => match s.get? p, (if s.isForeign t then none else s.tensorArg t) with
       | some (.ptr idx j), some v => (match s.fcs[idx]? with
           | some c => ({ s with fcs := s.fcs.set! idx (if j == 0 then { c with w := v } else { c with b := v }) }, .ok "")
           | none => (s, .skip))
@@ -491,14 +515,17 @@ def exec (s : St) (dst : Option String) (cmd : String) (args : List String) : St
   | "mse", [] => match dst with | some d => (s.bind d (.loss .mse), .ok "") | none => (s, .bad)
   | "bce", [] => match dst with | some d => (s.bind d (.loss .bce), .ok "") | none => (s, .bad)
   | "ce", [] => match dst with | some d => (s.bind d (.loss .ce), .ok "") | none => (s, .bad)
-  | "loss", [j, a, b] => match s.get? j, s.tensorArg a, s.tensorArg b with
-      | some (.loss l), some yp, some yt => runBind s dst (lossCompute l yp yt)
+  | "loss", [j, a, b] => match s.get? j, s.compArg a, s.compArg b with
+      | some (.loss l), some (yp, fp), some (yt, _) =>
+          -- MSE computes `yt.Sub(yp)`: a foreign prediction is an argument there; BCE / CE only call methods ON their inputs
+          if l == .mse && fp then failBind s dst .err else runBind s dst (lossCompute l yp yt)
       | _, _, _ => failBind s dst .skip
   | "accuracy", [] => match dst with
       | some d => (({ s with accs := s.accs.push {} }).bind d (.metric s.accs.size), .ok "") | none => (s, .bad)
-  | "acc", [m, a, b] => match s.get? m, s.tensorArg a, s.tensorArg b with
-      | some (.metric idx), some yp, some yt => (match s.accs[idx]? with
-          | some c => (match (accAccumulate c yp yt : HM Float Accuracy) H with
+  | "acc", [m, a, b] => match s.get? m, s.compArg a, s.compArg b with
+      | some (.metric idx), some (yp, _), some (yt, ft) => (match s.accs[idx]? with
+          -- `yp.Eq(yt)`: a foreign target is an argument and is rejected; the counts stay as they are
+          | some c => (match (if ft then (fun _ => Out.err) else (accAccumulate c yp yt : HM Float Accuracy)) H with
               | .ok (c', H') => ({ s with heap := H', accs := s.accs.set! idx c' }, .ok "")
               | .err => (s, .err) | .panic => (s, .panic))
           | none => (s, .skip))
